@@ -279,14 +279,19 @@ def _ext_siblings(ctx, prog):
             inner = [(b, lib.tail(mir.fn_name(fr), 1)) for b, t, fr in cb.iter_calls() if fr and lib.tail(mir.fn_name(fr), 1) in names]
             cnt, _, _ = lib.event_counts(cb, [b for b, _ in inner])
             w = lib.path_to_return_avoiding(body, [0], [qb])
-            ctx.check(len(queued) == 1 and w is None and cnt == {1} and all(x == nm for _, x in inner), "C17.a", "%s:defers-the-same-variant" % key, body.loc(qb),
+            ctx.check(len(queued) == 1 and w is None and cnt == {1} and all(_same_class(x, nm) for _, x in inner), "C17.a", "%s:defers-the-same-variant" % key, body.loc(qb),
                       "queues, on every path, a command that calls World::%s exactly once" % nm,
                       "the deferred %s does not call World::%s exactly once on every path (calls: %s)" % (nm, nm, [x for _, x in inner]))
         else:
             cnt, _, _ = lib.event_counts(body, [b for _, b, _ in sites])
-            ctx.check(cnt == {1} and all(x == nm for _, _, x in sites), "C17.a", "%s:forwards-to-the-same-variant" % key, "%s:%d" % (body.file, body.line),
+            ctx.check(cnt == {1} and all(_same_class(x, nm) for _, _, x in sites), "C17.a", "%s:forwards-to-the-same-variant" % key, "%s:%d" % (body.file, body.line),
                       "forwards to %s exactly once on every path" % nm, "%s does not forward to the variant of the same name exactly once (calls: %s)" % (nm, [x for _, _, x in sites]))
     ctx.floor("C17.a", n, 8, "deferred / forwarding syscall variants (Commands, EntityCommands)")
+
+
+def _same_class(callee, own):
+    """state-persisting variants may forward to each other (with / without validation), and so may the run-once ones"""
+    return ("once" in callee) == ("once" in own)
 
 
 def _archetype_update(ctx, prog):
